@@ -342,6 +342,53 @@ def package_lints(model, rep, rule, paths):
                               f'the table of time variables at line {x.lineno} holds {odd[0]!r}, which is two variable names run together (a comma '
                               f'is missing between two adjacent string literals): both variables drop out of whatever the table drives',
                               f'{mod_}:{x.lineno}')
+    # a class-level mutable container (dict / list / set) that instance methods fill: one object shared by every instance of the class,
+    # surviving reset() and the life of any one object (a memo table keyed by element name, a registry of seen values)
+    MUT = ('append', 'extend', 'insert', 'update', 'setdefault', 'pop', 'popitem', 'clear', 'add', 'remove', 'discard')
+    for cname, ci in model.classes.items():
+        if not any(p_ in ci.module for p_ in paths):
+            continue
+        tree_ = model.trees.get(ci.module)
+        cdef = next((c_ for c_ in _ast.walk(tree_) if isinstance(c_, _ast.ClassDef) and c_.name == cname), None) if tree_ is not None else None
+        if cdef is None:
+            continue
+        shared = {}
+        for b in cdef.body:
+            tgt = b.targets[0] if isinstance(b, _ast.Assign) and len(b.targets) == 1 else (b.target if isinstance(b, _ast.AnnAssign) else None)
+            val = getattr(b, 'value', None)
+            if isinstance(tgt, _ast.Name) and (isinstance(val, (_ast.Dict, _ast.List, _ast.Set)) and not (getattr(val, 'keys', None) or getattr(val, 'elts', None))
+                                              or (isinstance(val, _ast.Call) and isinstance(val.func, _ast.Name) and val.func.id in ('dict', 'list', 'set', 'defaultdict', 'OrderedDict', 'Counter', 'deque'))):
+                shared[tgt.id] = b.lineno
+        for mem in ci.all_members():
+            for x in _ast.walk(mem.node):
+                hit = None
+                if isinstance(x, _ast.Subscript) and isinstance(x.ctx, _ast.Store) and isinstance(x.value, _ast.Attribute) and x.value.attr in shared:
+                    hit = x.value.attr
+                if isinstance(x, _ast.Call) and isinstance(x.func, _ast.Attribute) and x.func.attr in MUT and isinstance(x.func.value, _ast.Attribute) \
+                        and x.func.value.attr in shared:
+                    hit = x.func.value.attr
+                if hit:
+                    n += 1
+                    rep.violation(rule, f'{cname}.{hit}:class-level-container',
+                                  f'`{hit}` is created once in the class body (line {shared[hit]}) and filled by {mem.qualname}: every {cname} object of the '
+                                  f'process shares it, so what one object stored is read by another (and survives reset)', f'{ci.module}:{x.lineno}')
+                    shared.pop(hit)
+    # Solver only: a container the constructor builds and a method on the run() path updates IN PLACE with an augmented assignment on
+    # its items (`self.__ratios[j] *= r`) accumulates over successive runs - nothing gives it back its initial content
+    ci = model.classes.get('Solver')
+    if ci is not None and any(p_ in ci.module for p_ in paths):
+        for mem in ci.all_members():
+            if mem.name == '__init__':
+                continue
+            rebuilt = {t.attr for a_ in _ast.walk(mem.node) if isinstance(a_, _ast.Assign) for t in a_.targets
+                       if isinstance(t, _ast.Attribute) and isinstance(t.value, _ast.Name) and t.value.id == 'self'}
+            for x in _ast.walk(mem.node):
+                if isinstance(x, _ast.AugAssign) and isinstance(x.target, _ast.Subscript) and isinstance(x.target.value, _ast.Attribute) \
+                        and isinstance(x.target.value.value, _ast.Name) and x.target.value.value.id == 'self' and x.target.value.attr not in rebuilt:
+                    n += 1
+                    rep.violation(rule, f'Solver.{x.target.value.attr}:accumulated-in-place',
+                                  f'`{_ast.unparse(x)[:60]}` in {mem.qualname} updates an item of a container that only the constructor creates: the '
+                                  f'update is applied again at every run() of the same Solver', f'{ci.module}:{x.lineno}')
     # `super(type(self), ...)` / `super(self.__class__, ...)`: for an instance of a subclass the lookup starts above the SUBCLASS and
     # finds this very method again - unbounded recursion; the first argument must be the class the code is written in
     for cname, ci in model.classes.items():
